@@ -1,6 +1,7 @@
-(* C14/Proofs5.v -- nan_idx of get_merge_map = the cluster ids up to the highest one that have no spike. *)
+(* C14/Proofs5.v -- nan_idx of get_merge_map = the cluster ids up to the highest one that have no spike; nan_idx of
+   the identity branch of _load_data (repaired) = the ids of range(n_clusters) that have no spike. *)
 From Coq Require Import ZArith List Bool Arith Lia.
-From PV Require Import C09.Model C09.Spec C09.Proofs C09.Proofs2 C09.Proofs3 C14.Model C14.Spec.
+From PV Require Import C09.Model C09.Spec C09.Proofs C09.Proofs2 C09.Proofs3 C14.Model C14.Spec C14.Proofs1.
 Import ListNotations.
 Open Scope Z_scope.
 
@@ -134,13 +135,37 @@ Proof.
   - intros H. injection H as -> ->. rewrite Z.eqb_refl. cbn. now apply IH.
 Qed.
 
-(* what alf.py sets to NaN: nothing when no spike changed cluster; otherwise the ids without spikes *)
-Theorem model_nan_idx_thm : forall st sc, length sc = length st -> (forall s, In s sc -> 0 <= s) ->
-  (sc = st -> model_nan_idx st sc = []) /\
-  (sc <> st -> forall c, In c (model_nan_idx st sc) <-> 0 <= c <= lmax sc /\ ~ In c sc).
+(* np.setdiff1d(np.arange(n_clusters), spike_clusters): increasing, the ids of range(n_clusters) no spike carries *)
+Lemma setdiff_arange_thm ncl sc c : In c (setdiff_arange ncl sc) <-> 0 <= c < ncl /\ ~ In c sc.
 Proof.
-  intros st sc L P. unfold model_nan_idx, curated. split.
-  - intros ->. replace (zl_eq st st) with true by (symmetry; now apply zl_eq_true). reflexivity.
+  unfold setdiff_arange. rewrite in_map_iff. split.
+  - intros (k & <- & Hf). apply filter_In in Hf as [Hin Hm]. apply in_seq in Hin. split; [lia|].
+    intros H. apply memZ_In in H. rewrite H in Hm. discriminate.
+  - intros [Hr Hn]. exists (Z.to_nat c). split; [lia|]. apply filter_In. split; [apply in_seq; lia|].
+    rewrite Z2Nat.id by lia. destruct (memZ c sc) eqn:E; [|reflexivity]. apply memZ_In in E. contradiction.
+Qed.
+
+(* what alf.py sets to NaN (model.nan_idx as _load_data leaves it, repaired): when no spike changed cluster, the
+   ids of range(n_clusters) without spikes; otherwise the ids 0 .. max(spike_clusters) without spikes; and since
+   the loader sets n_clusters = max(spike_clusters) + 1 in the second case (C08_merge_map_loaded), in BOTH cases
+   exactly the ids of range(n_clusters) that no spike carries *)
+Theorem model_nan_idx_thm : forall ncl st sc, length sc = length st -> (forall s, In s sc -> 0 <= s) ->
+  (sc = st -> forall c, In c (model_nan_idx ncl st sc) <-> 0 <= c < ncl /\ ~ In c sc) /\
+  (sc <> st -> forall c, In c (model_nan_idx ncl st sc) <-> 0 <= c <= lmax sc /\ ~ In c sc) /\
+  ((sc <> st -> ncl = lmax sc + 1) ->
+   forall c, In c (model_nan_idx ncl st sc) <-> 0 <= c < ncl /\ ~ In c sc).
+Proof.
+  intros ncl st sc L P. unfold model_nan_idx, curated. split; [|split].
+  - intros ->. replace (zl_eq st st) with true by (symmetry; now apply zl_eq_true). cbn [negb].
+    intros c. apply setdiff_arange_thm.
   - intros N. destruct (zl_eq sc st) eqn:E; [apply zl_eq_true in E; contradiction|]. cbn [negb].
     now apply nan_idx_thm.
+  - intros Hn c. destruct (zl_eq sc st) eqn:E; cbn [negb]; [apply setdiff_arange_thm|].
+    assert (N : sc <> st) by (intros Eq; apply zl_eq_true in Eq; congruence).
+    rewrite (nan_idx_thm st sc L P c), (Hn N). split; intros [H1 H2]; (split; [lia|exact H2]).
 Qed.
+
+(* the marked ids are increasing (what np.setdiff1d / the dictionary order of get_merge_map give) -- uncurated case *)
+Lemma setdiff_arange_old_differs : exists ncl st sc,
+  sc = st /\ model_nan_idx_old st sc = [] /\ model_nan_idx ncl st sc = [2] /\ ~ In 2 sc /\ 0 <= 2 < ncl.
+Proof. exists 4, [0; 1; 3; 0], [0; 1; 3; 0]. repeat split; try reflexivity; cbn; lia. Qed.
